@@ -25,6 +25,8 @@ enum T {
     /// GenericGridPlacement<coordinate>
     Placement(Box<T>),
     Line(Box<T>),
+    /// `Option<integer>` (result of `try_into_track_vec_index`)
+    Option(Box<T>),
     Counts,
 }
 impl T {
@@ -34,6 +36,7 @@ impl T {
             T::Bool | T::Prop => "Bool".into(),
             T::Placement(_) => "Placement".into(),
             T::Line(t) => format!("(Line {})", t.lean()),
+            T::Option(t) => format!("(Option {})", t.lean()),
             T::Counts => "TrackCounts".into(),
         }
     }
@@ -56,6 +59,7 @@ impl T {
             T::Placement(c) if **c == T::Gl => "GridPlacement".into(),
             T::Placement(_) => "OriginZeroGridPlacement".into(),
             T::Line(t) => format!("Line<{}>", t.key()),
+            T::Option(t) => format!("Option<{}>", t.key()),
             t => format!("{:?}", t),
         }
     }
@@ -194,6 +198,7 @@ impl<'a> Cx<'a> {
             "OriginZeroLine" => T::Oz,
             "GridLine" => T::Gl,
             "TrackCounts" => T::Counts,
+            "Option<usize>" => T::Option(Box::new(T::Usize)),
             "GridPlacement" => T::Placement(Box::new(T::Gl)),
             "OriginZeroGridPlacement" => T::Placement(Box::new(T::Oz)),
             "Line<OriginZeroLine>" => T::Line(Box::new(T::Oz)),
@@ -279,6 +284,11 @@ impl<'a> Cx<'a> {
                 if let Some((l, t)) = self.placement_variant(&s, expect) {
                     if l.ends_with("auto") {
                         return Ok((l, t));
+                    }
+                }
+                if s.len() == 1 && s[0] == "None" {
+                    if let Some(t @ T::Option(_)) = expect {
+                        return Ok(("none".into(), t.clone()));
                     }
                 }
                 Err(format!("unresolved path `{}`", s.join("::")))
@@ -372,6 +382,17 @@ impl<'a> Cx<'a> {
                         return Err(format!("{name}(..) applied to {:?}", at));
                     }
                     return Ok((a, if name == "GridLine" { T::Gl } else { T::Oz }));
+                }
+                if p.len() == 1 && name == "Some" && args.len() == 1 {
+                    let want = match expect {
+                        Some(T::Option(t)) => Some((**t).clone()),
+                        _ => None,
+                    };
+                    let (a, at) = self.ex(args[0], want.as_ref(), pre)?;
+                    if !at.is_int() {
+                        return Err(format!("Some(..) applied to {:?}", at));
+                    }
+                    return Ok((format!("(some {a})"), T::Option(Box::new(at))));
                 }
                 if p.len() == 1 && (name == "max" || name == "min") && args.len() == 2 {
                     let (a, at) = self.ex(args[0], None, pre)?;
@@ -697,6 +718,26 @@ impl<'a> Cx<'a> {
         Ok(wrap(pre, S::Match(sc, after)))
     }
 
+    /// `if c { a } else { b }` where `c` may be a short-circuiting `x || y` with checked operations in `y`:
+    /// `y` (and its checked operations) is evaluated only when `x` is false
+    fn cond_if(&mut self, c: &Expr, a: S, b: S) -> R<S> {
+        match c {
+            Expr::Paren(p) => self.cond_if(&p.expr, a, b),
+            Expr::Binary(bin) if matches!(bin.op, BinOp::Or(_)) => {
+                let inner = self.cond_if(&bin.right, a.clone(), b)?;
+                self.cond_if(&bin.left, a, inner)
+            }
+            _ => {
+                let mut pre = vec![];
+                let (cl, ct) = self.ex(c, None, &mut pre)?;
+                if !matches!(ct, T::Prop | T::Bool) {
+                    return Err("`if` condition".into());
+                }
+                Ok(wrap(pre, S::If(cl, Box::new(a), Box::new(b))))
+            }
+        }
+    }
+
     fn block(&mut self, stmts: &[Stmt], expect: Option<&T>, out_ty: &mut Option<T>) -> R<S> {
         let (st, rest) = stmts.split_first().ok_or("block without value")?;
         match st {
@@ -754,6 +795,16 @@ impl<'a> Cx<'a> {
                 let r = self.block(rest, expect, out_ty)?;
                 Ok(wrap(pre, S::If(cl, Box::new(r), Box::new(S::Panic(msg.value())))))
             }
+            // `if c { …; return e; }` followed by the rest of the block: the rest is the else branch
+            Stmt::Expr(Expr::If(i), _) if !rest.is_empty() && i.else_branch.is_none() => {
+                match i.then_branch.stmts.last() {
+                    Some(Stmt::Expr(Expr::Return(_), _)) => {}
+                    _ => return Err("`if` statement without else whose body does not end in `return`".into()),
+                }
+                let a = self.block(&i.then_branch.stmts, expect, out_ty)?;
+                let b = self.block(rest, expect, out_ty)?;
+                self.cond_if(&i.cond, a, b)
+            }
             Stmt::Expr(e, None) if rest.is_empty() => self.tail(e, expect, out_ty),
             Stmt::Expr(Expr::Return(r), _) if rest.is_empty() => self.tail(r.expr.as_ref().ok_or("return without value")?, expect, out_ty),
             _ => Err(format!("unsupported statement `{}`", quote::quote!(#st))),
@@ -787,7 +838,8 @@ const TARGETS: &[Target] = &[
     t(CO, "OriginZeroLine", Some("Sub<u16>"), "sub", "OriginZeroLine.sub_u16", ("OriginZeroLine", "sub_u16"), true),
     t(CO, "OriginZeroLine", Some("Add<OriginZeroLine>"), "add", "OriginZeroLine.add", ("OriginZeroLine", "add_OriginZeroLine"), false),
     t(CO, "OriginZeroLine", Some("Sub<OriginZeroLine>"), "sub", "OriginZeroLine.sub", ("OriginZeroLine", "sub_OriginZeroLine"), false),
-    t(CO, "OriginZeroLine", None, "into_track_vec_index", "OriginZeroLine.into_track_vec_index", ("OriginZeroLine", "into_track_vec_index"), false),
+    t(CO, "OriginZeroLine", None, "into_track_vec_index", "OriginZeroLine.into_track_vec_index", ("OriginZeroLine", "into_track_vec_index"), true),
+    t(CO, "OriginZeroLine", None, "try_into_track_vec_index", "OriginZeroLine.try_into_track_vec_index", ("OriginZeroLine", "try_into_track_vec_index"), true),
     t(CO, "OriginZeroLine", None, "implied_negative_implicit_tracks", "OriginZeroLine.implied_negative_implicit_tracks", ("OriginZeroLine", "implied_negative_implicit_tracks"), true),
     t(CO, "OriginZeroLine", None, "implied_positive_implicit_tracks", "OriginZeroLine.implied_positive_implicit_tracks", ("OriginZeroLine", "implied_positive_implicit_tracks"), true),
     t(CO, "Line<OriginZeroLine>", None, "span", "Line_OriginZeroLine.span", ("Line<OriginZeroLine>", "span"), false),
